@@ -1,0 +1,19 @@
+//go:build verif
+
+package node
+
+import "github.com/siyul-park/uniflow/pkg/packet"
+
+// VerifTracer returns the tracer of a one-to-one, one-to-many or many-to-one node
+// (read-only accessor for the verification harness).
+func VerifTracer(n Node) *packet.Tracer {
+	switch n := n.(type) {
+	case *OneToOneNode:
+		return n.tracer
+	case *OneToManyNode:
+		return n.tracer
+	case *ManyToOneNode:
+		return n.tracer
+	}
+	return nil
+}
